@@ -70,7 +70,8 @@ def oracle(chk, quick):
         return float(numpy.abs(a - b).max()) / (float(numpy.abs(b).max()) + 1e-300)
 
     # ---- group laws of angularSpectrum (exact discrete identities)
-    sizes = [2, 4, 6, 8, 16, 32] + ([] if quick else [10, 12, 24, 64, 128])
+    # the group laws are proved for every N >= 1 and the property does not restrict them to even grids: odd sizes included
+    sizes = [2, 3, 4, 5, 6, 8, 9, 16, 17, 32, 33] + ([] if quick else [7, 10, 12, 24, 63, 64, 65, 128])
     reps = 3 if quick else 10
     for n in sizes:
         for rep in range(reps):
